@@ -5,7 +5,8 @@ barline), checks Tiles, GapsDisjointAndProper, GapsMaximal, GapsBehindSweep and 
 and prints the gaps of the voice; every scenario is replayed into partitura.score.fill_rests on a part with that measure
 (grid step = an eighth), a second complete voice and a complete second measure: the rests of the voice must tile exactly
 the gaps (one rest or several in a row), complete voices and measures get nothing, notes are untouched, and a second
-call adds nothing.
+call adds nothing.  The global mode (measurewise=False) is replayed too: it fills only the outer gaps of the voice, and
+a voice that is silent in a measure gets one rest over it.
 
 Not a listed property: not registered in MANIFEST.json, prints DEVIATION lines (never VIOLATION), writes growth/G06.json."""
 import json
@@ -101,6 +102,26 @@ def main():
                     dev("second_call_adds_rests." + tag, cc, sorted(rests2), sorted(rests))
             except Exception as ex:
                 dev("raises_second_call." + tag, cc, "%s: %s" % (type(ex).__name__, str(ex)[:200]), "no exception")
+        # ---- the global mode (measurewise=False): only the time before the first and after the last note of the voice
+        # in the measure is filled (one rest each), and a voice that is silent in a measure gets a rest over it
+        outer = [g for g in gaps if g[0] == 0 or g[1] == L]
+        try:
+            part = S.Part("P1")
+            part.set_quarter_duration(0, 2)
+            part.add(S.TimeSignature(L, 8), 0)
+            part.add(S.Measure(number=1), 0, L)
+            part.add(S.Measure(number=2), L, 2 * L)
+            for k, x in enumerate(c["notes"]):
+                part.add(S.Note(step="C", octave=4, voice=1, staff=1, id="a%d" % k), x["on"], x["off"])
+            part.add(S.Note(step="E", octave=3, voice=2, staff=1, id="b0"), 0, L)
+            part.add(S.Note(step="G", octave=3, voice=2, staff=1, id="c1"), L, 2 * L)
+            S.fill_rests(part, measurewise=False)
+            rests = sorted((int(x.start.t), int(x.end.t), int(x.voice), int(x.staff)) for x in part.iter_all(S.Rest))
+            want = sorted([(g[0], g[1], 1, 1) for g in outer] + [(L, 2 * L, 1, 1)])
+            if rests != want:
+                dev("global_mode.rests", c, rests, want)
+        except Exception as ex:
+            dev("global_mode.raises", c, "%s: %s" % (type(ex).__name__, str(ex)[:200]), outer)
     out = os.path.join(common.OUT, "growth")
     os.makedirs(out, exist_ok=True)
     ev = {"growth_id": "G06", "spec": "FillRests.tla / FillRestsCases.tla", "tier": tier,
